@@ -6,6 +6,7 @@ import (
 	"fmt"
 	"os"
 	"path/filepath"
+	"regexp"
 	"sort"
 	"strings"
 	"testing"
@@ -27,7 +28,7 @@ type Case struct {
 }
 
 func gen(t *rapid.T) Case {
-	p := jgen.GenProject(t, jgen.Opts{Layout: true, Interfaces: true, RichDecl: true, MaxUnits: 8, MultiByte: true, Bodies: rapid.IntRange(0, 3).Draw(t, "bodies") == 0})
+	p := jgen.GenProject(t, jgen.Opts{Layout: true, Interfaces: true, RichDecl: true, MaxUnits: 8, MultiByte: true, WordNames: true, WordDirs: true, ModuleLayout: true, Bodies: rapid.IntRange(0, 3).Draw(t, "bodies") == 0})
 	return Case{Project: p, CLI: rapid.IntRange(0, 11).Draw(t, "cli") == 0}
 }
 
@@ -208,6 +209,8 @@ func tail(s string) string {
 	return s
 }
 
+var wordMethod = regexp.MustCompile(`^(get|set|is|test|should|latest|contest|main|check|util)[A-Z]`)
+
 func classify(c Case) pbt.Verdict {
 	v := pbt.Verdict{}
 	nMain, nOther, multi := 0, 0, false
@@ -222,6 +225,28 @@ func classify(c Case) pbt.Verdict {
 			}
 			if u.ExtendsFull != u.ExtendsRaw {
 				v.Classes = append(v.Classes, "qualified_superclass")
+			}
+			low := strings.ToLower(u.Name)
+			switch {
+			case strings.HasSuffix(low, "test") || strings.HasSuffix(low, "tests"):
+				v.Classes = append(v.Classes, "main_name_ends_in_letters_test")
+			case strings.Contains(low, "test"):
+				v.Classes = append(v.Classes, "main_name_contains_test")
+			}
+			for _, w := range []string{"service", "util", "main", "null", "todo"} {
+				if strings.Contains(low, w) {
+					v.Classes = append(v.Classes, "main_name_with_tool_word")
+					break
+				}
+			}
+			if strings.Contains(strings.ToLower(filepath.ToSlash(filepath.Dir(u.Path))), "test") {
+				v.Classes = append(v.Classes, "main_dir_contains_letters_test")
+			}
+			for _, f := range u.Funcs {
+				if wordMethod.MatchString(f.Name) {
+					v.Classes = append(v.Classes, "method_with_word_prefix")
+					break
+				}
 			}
 		} else {
 			nOther++
@@ -241,6 +266,23 @@ func classify(c Case) pbt.Verdict {
 			break
 		}
 	}
+	module, dirOnly := false, false
+	for _, u := range c.Project.Units {
+		for _, m := range []string{"core", "contest-api"} {
+			if strings.Contains("/"+u.Path, "/"+m+"/src/") {
+				module = true
+				if u.Role == "test" && !strings.HasSuffix(u.Name, "Test") && !strings.HasSuffix(u.Name, "Tests") {
+					dirOnly = true
+				}
+			}
+		}
+	}
+	if module {
+		v.Classes = append(v.Classes, "module_maven_layout")
+	}
+	if dirOnly {
+		v.Classes = append(v.Classes, "module_test_by_directory_only")
+	}
 	if c.CLI {
 		v.Classes = append(v.Classes, "cli")
 	}
@@ -251,11 +293,12 @@ func classify(c Case) pbt.Verdict {
 func init() {
 	pbt.SetProperty("C01")
 	jgen.SetExcluded(pbt.Excluded)
-	pbt.Describe("rapid-generated conventional Java trees (jgen): 1-8 units over 1-3 packages in flat / nested / Maven / deep layouts, classes (some abstract, generic) and interfaces with fields, constructors, methods (modifier permutations, generic methods, overloads, arrays, generic types, final parameters), class-level annotations of five argument forms, superclasses (project class same package / imported, imported external, unimported, generic), comments and layout noise; mixed with test files (*Test.java, *Tests.java, src/test/java/), files ignored through .gitignore (directory pattern and *Suffix.java pattern) and non-Java files. Oracle: the ground truth recorded while printing; both directions (each declared type/function exactly once with its attributes; no other named entry). Judged for JavaIdentifierApp.AnalysisPath, JavaFullApp.AnalysisPath(dir, identifiers) and, for one case in twelve, the files written by the sub-process `coca analysis -p DIR`. Non-trivial = at least 2 units, at least one included and one excluded file, and a type with >= 2 functions; distinct = hash of the whole case.",
+	pbt.Describe("rapid-generated conventional Java trees (jgen): 1-8 units over 1-3 packages in flat / nested / Maven / multi-module Maven (core/src/main/java, contest-api/src/test/java) / deep layouts, classes (some abstract, generic) and interfaces with fields, constructors, methods (modifier permutations, generic methods, overloads, arrays, generic types, final parameters), class-level annotations of five argument forms, superclasses (project class same package / imported, imported external, unimported, generic), comments and layout noise; class names that are ordinary words which merely contain the letters of a test name (ending in ...test / ...tests in lower case: Contest, Latest, Protests, Shortest; Test in the middle: ...TestHelper, ...Attestation) or other words the tool keys on elsewhere (...Service, ...Util, ...Main, ...Nullable, ...Todo), method names getX / setX / isX / testX / shouldX / mainX, package directories containing the letters test (com/acme/contest, org/demo/latest/api, app/attest); mixed with test files (*Test.java, *Tests.java, src/test/java/), files ignored through .gitignore (directory pattern and *Suffix.java pattern) and non-Java files. Oracle: the ground truth recorded while printing; both directions (each declared type/function exactly once with its attributes; no other named entry). Judged for JavaIdentifierApp.AnalysisPath, JavaFullApp.AnalysisPath(dir, identifiers) and, for one case in twelve, the files written by the sub-process `coca analysis -p DIR`. Non-trivial = at least 2 units, at least one included and one excluded file, and a type with >= 2 functions; distinct = hash of the whole case.",
 		"identifier pass: FilePath and parameter lists are never recorded for any input, so they are asserted on the full pass only (DESIGN.md section 5)",
 		"interfaces are generated without `extends` (the statement speaks of a superclass)",
 		"paths containing `testData` are not generated: the statement does not say whether they count as ignored",
-		"type texts are compared after removing blanks")
+		"type texts are compared after removing blanks",
+		"a main file is never named with the capitalised suffix Test / Tests, the prefix Test, the suffix TestCase or an upper-case TEST / TESTS ending, and never lies under a directory called test or tests: the statement does not define `test file`, and for those names a reader could argue either way; names that only contain the letters (Contest.java, com/acme/latest/) are ordinary main files under every reading")
 	pbt.Register("model", 250, 2500, gen, check)
 }
 
